@@ -1,0 +1,19 @@
+//go:build verif
+
+package hpack
+
+// Checked versions of encoder helpers whose contracts were assumed in verif_contracts.go.
+// appendIndexed: RFC 7541 6.1: first bit 1, 7-bit prefix integer; appendTableSize: 6.3: pattern
+// 001, 5-bit prefix integer. Both keep the bytes of dst and append at least one byte.
+
+//@ extend appendIndexed(dst, i) (out)
+//@   untrusted
+//@   ensures  len(out) > len(dst)
+//@   ensures  out[len(dst)] & 0x80 == 0x80
+//@   ensures  forall k int :: 0 <= k && k < len(dst) ==> out[k] == old(dst[k])
+
+//@ extend appendTableSize(dst, v) (out)
+//@   untrusted
+//@   ensures  len(out) > len(dst)
+//@   ensures  out[len(dst)] & 0xE0 == 0x20
+//@   ensures  forall k int :: 0 <= k && k < len(dst) ==> out[k] == old(dst[k])
